@@ -343,6 +343,11 @@ func cmdCheck(args []string) int {
 	solverSecs := 0.0
 	for _, r := range results {
 		for _, o := range r.Obls {
+			if o.Result != "unsat" && isKnownFailing(o.Name) {
+				// a listed known finding: reported as KNOWN-FINDING and under coverage.known_findings, not part of the counts
+				failed = append(failed, o)
+				continue
+			}
 			total++
 			solverSecs += o.Secs
 			if o.Result == "unsat" {
